@@ -28,6 +28,9 @@ type Check struct {
 	Rule        string
 	Assumptions []string
 	Technique   string
+	// ShardByScenario distributes whole scenarios over the workers (many small trees)
+	// instead of splitting every scenario's tree at depth 2 (few large trees).
+	ShardByScenario bool
 }
 
 var registry = map[string]*Check{}
@@ -168,8 +171,15 @@ func runWorker(c *Check, tier string, shard, shards int, out string) {
 	res := &WorkerResult{Scen: map[string]*explore.Stats{}}
 	deadline := tierDeadline(tier)
 	if c.Scenarios != nil {
-		for _, sc := range scenariosOf(c, tier) {
-			st, found := explore.Explore(sc, explore.Options{Shard: shard, Shards: shards, Deadline: deadline, MaxFound: 3})
+		for i, sc := range scenariosOf(c, tier) {
+			o := explore.Options{Shard: shard, Shards: shards, Deadline: deadline, MaxFound: 3}
+			if c.ShardByScenario {
+				if i%shards != shard {
+					continue
+				}
+				o.Shard, o.Shards = 0, 1
+			}
+			st, found := explore.Explore(sc, o)
 			res.Scen[sc.Name] = st
 			res.Found = append(res.Found, found...)
 		}
